@@ -114,12 +114,35 @@ NORM_STRATA = [("exact", 0.0), ("exact", 0.0), ("exact", 0.0), ("+0.4eps", 0.4),
 NORM_BAD = [("+1.1eps", 1.1), ("-1.1eps", -1.1), ("+10eps", 10.0), ("-10eps", -10.0), ("far", 1e10)]
 
 
+# exactly representable unit complex numbers / quaternions (quarter and half turns, Hurwitz units,
+# 3-4-5 type rationals are not exact in binary, so only dyadic ones): inputs on which special-case
+# code (`if (imag == 0)`, `if (w == 1)`) and exact arithmetic paths are exercised.
+EXACT_COMPLEX = [(1.0, 0.0), (-1.0, 0.0), (0.0, 1.0), (0.0, -1.0)]
+_H = 0.5
+EXACT_QUAT = ([(0.0, 0.0, 0.0, 1.0), (0.0, 0.0, 0.0, -1.0), (1.0, 0.0, 0.0, 0.0), (0.0, 1.0, 0.0, 0.0),
+               (0.0, 0.0, 1.0, 0.0), (-1.0, 0.0, 0.0, 0.0), (0.0, -1.0, 0.0, 0.0), (0.0, 0.0, -1.0, 0.0)] +
+              [(a * _H, b * _H, c * _H, d * _H) for a in (1, -1) for b in (1, -1) for c in (1, -1) for d in (1, -1)])
+EXACT_LIN = [0.0, 1.0, -1.0, 2.0, -0.5, 1024.0, -3.0]
+
+
 def element(r, group, angle_only=None, lin_only=None, norm="valid"):
     """A group element in manif's coefficient order.  norm: 'exact' | 'valid' (within the
     acceptance threshold) | 'any' (also outside)."""
     g = GROUPS[group]
     out, tags = [], []
+    exact = (angle_only is None or "exact" in angle_only) and r.random() < 0.12
     for kind, n in g["rep"]:
+        if exact:
+            if kind == "complex":
+                out += list(r.choice(EXACT_COMPLEX))
+                tags.append("ang:exact")
+            elif kind == "quat":
+                out += list(r.choice(EXACT_QUAT))
+                tags.append("ang:exact")
+            else:
+                out += [r.choice(EXACT_LIN) for _ in range(n)]
+                tags.append("lin:exact")
+            continue
         if kind == "complex":
             nm, th = pick(r, ANGLE_STRATA, angle_only)
             th *= r.choice([-1.0, 1.0])
